@@ -245,15 +245,51 @@ pub fn skeleton(sql: &str) -> String {
     out
 }
 
+pub const JOIN_ROW_CAP: f64 = 150_000.0;
+
+fn cell_key(c: &Cell) -> Option<String> {
+    match c {
+        Cell::Null => None,
+        Cell::Int(i) => Some(format!("i{}", i)),
+        Cell::F(f) => Some(format!("f{}", f)),
+        Cell::S(s) => Some(format!("s{}", s)),
+        Cell::Date(d) => Some(format!("d{}", d)),
+        Cell::Bool(b) => Some(format!("b{}", b)),
+    }
+}
+
+/// Exact size of the equi-join of two base tables on one column pair.
+pub fn pair_est(l: &Table, lc: &str, r: &Table, rc: &str) -> f64 {
+    let (Some(li), Some(ri)) = (l.col_index(lc), r.col_index(rc)) else { return f64::INFINITY };
+    let mut h: std::collections::HashMap<String, u64> = std::collections::HashMap::new();
+    for row in &l.rows {
+        if let Some(k) = cell_key(&row[li]) {
+            *h.entry(k).or_insert(0) += 1;
+        }
+    }
+    let mut total = 0f64;
+    for row in &r.rows {
+        if let Some(k) = cell_key(&row[ri]) {
+            total += *h.get(&k).unwrap_or(&0) as f64;
+        }
+    }
+    total
+}
+
 pub struct G<'a> {
     pub rng: &'a mut Rng,
     pub f: Feats,
     pub tags: Vec<String>,
+    /// When set, a LIMIT is only emitted under an ORDER BY over ALL output
+    /// columns, so the limited answer is determined up to identical rows
+    /// (needed when two engine configurations are compared without a
+    /// reference for the un-limited answer).
+    pub total_order_limit: bool,
 }
 
 impl<'a> G<'a> {
     pub fn new(rng: &'a mut Rng, f: Feats) -> Self {
-        G { rng, f, tags: Vec::new() }
+        G { rng, f, tags: Vec::new(), total_order_limit: false }
     }
     fn tag(&mut self, t: &str) {
         if !self.tags.iter().any(|x| x == t) {
@@ -496,10 +532,14 @@ impl<'a> G<'a> {
     }
 
     /// FROM clause over 1..=max_rels of the given tables. Returns (text, rels).
+    /// Join conditions are chosen so that the estimated join output stays
+    /// under `JOIN_ROW_CAP` rows (a harness safety bound, not a property).
     pub fn from_clause(&mut self, tables: &[Table], max_rels: usize) -> (String, Vec<Rel>) {
         let n = 1 + self.rng.usize(max_rels.max(1));
         let mut rels: Vec<Rel> = Vec::new();
+        let mut rel_tables: Vec<&Table> = Vec::new();
         let mut text = String::new();
+        let mut est: f64 = 0.0;
         for i in 0..n {
             let t = &tables[self.rng.usize(tables.len())];
             let alias = format!("r{}", i);
@@ -507,6 +547,8 @@ impl<'a> G<'a> {
             if i == 0 {
                 text = format!("{} AS {}", t.name, alias);
                 rels.push(rel);
+                rel_tables.push(t);
+                est = t.rows.len() as f64;
                 continue;
             }
             let jt = loop {
@@ -519,27 +561,46 @@ impl<'a> G<'a> {
                     _ => {}
                 }
             };
+            let jt = if jt == "CROSS JOIN" && est * t.rows.len() as f64 > JOIN_ROW_CAP { "JOIN" } else { jt };
             self.tag(jt);
             if jt == "CROSS JOIN" {
                 text = format!("{} CROSS JOIN {} AS {}", text, t.name, alias);
+                est *= t.rows.len() as f64;
                 rels.push(rel);
+                rel_tables.push(t);
                 continue;
             }
             // equi keys between the new relation and one earlier relation
-            let other = rels[self.rng.usize(rels.len())].clone();
+            let oi = self.rng.usize(rels.len());
+            let other = rels[oi].clone();
+            let ot = rel_tables[oi];
             let nk = 1 + self.rng.usize(2);
             let mut conds = Vec::new();
+            let mut growth = f64::INFINITY;
             for _ in 0..nk {
                 let pairs: Vec<(&str, &str)> = vec![("i0", "i0"), ("i0", "i1"), ("i1", "i0"), ("j0", "i0"), ("i0", "j0"), ("s0", "s0"), ("d0", "d0"), ("id", "i0"), ("i0", "id")];
                 let (a, b) = *self.rng.pick(&pairs);
                 if (a == "s0" && !self.f.strings) || (a == "d0" && !self.f.dates) {
                     continue;
                 }
+                growth = growth.min(pair_est(ot, a, t, b) / (ot.rows.len().max(1) as f64));
                 conds.push(format!("{}.{} = {}.{}", other.alias, a, alias, b));
             }
             if conds.is_empty() {
+                growth = pair_est(ot, "i0", t, "i0") / (ot.rows.len().max(1) as f64);
                 conds.push(format!("{}.i0 = {}.i0", other.alias, alias));
             }
+            // outer joins keep unmatched rows of either side
+            let floor = match jt {
+                "FULL JOIN" | "RIGHT JOIN" => t.rows.len() as f64,
+                _ => 0.0,
+            };
+            if est * growth + floor > JOIN_ROW_CAP {
+                // fall back to a key join on the unique id
+                conds = vec![format!("{}.id = {}.id", other.alias, alias)];
+                growth = 1.0;
+            }
+            est = (est * growth).max(floor).max(1.0);
             let mut all = rels.clone();
             all.push(rel.clone());
             if self.rng.chance(1, 3) {
@@ -554,6 +615,7 @@ impl<'a> G<'a> {
             }
             text = format!("{} {} {} AS {} ON {}", text, jt, t.name, alias, conds.join(" AND "));
             rels.push(rel);
+            rel_tables.push(t);
         }
         (text, rels)
     }
@@ -584,10 +646,11 @@ impl<'a> G<'a> {
         q.sql = core;
         if self.rng.chance(1, 2) {
             self.tag("order-by");
-            let (ob, keys) = self.order_by(ncols, false);
+            let want_limit = self.f.limit && self.rng.chance(1, 2);
+            let (ob, keys) = self.order_by(ncols, want_limit && self.total_order_limit);
             q.sql.push_str(&ob);
             q.keys = keys;
-            if self.f.limit && self.rng.chance(1, 2) {
+            if want_limit {
                 self.tag("limit");
                 let l = *self.rng.pick(&[0usize, 1, 2, 3, 5, 10, 1000]);
                 q.limit = Some(l);
@@ -641,6 +704,8 @@ impl<'a> G<'a> {
                 3 => Some(self.int_expr(&rels, 1)),
                 _ => self.col_of(&rels, |t| t.is_int()).map(|c| c.0),
             };
+            // a bare literal in GROUP BY is an ordinal in SQL; keys must name a column
+            let k = k.filter(|k| k.contains('.'));
             if let Some(k) = k {
                 if !keys_txt.contains(&k) {
                     items.push(format!("{} AS c{}", k, items.len()));
